@@ -263,6 +263,37 @@ def eval_basis(spec, points):
     return out
 
 
+def eval_basis_abs(spec, points, coeff_override=None):
+    """Upper bound of |phi_mu| without cancellations: sum_k |D_k| N_k exp(..) * sum |c| |x^n|.
+
+    With ``coeff_override`` every contraction coefficient is replaced by that value: the result
+    bounds the change of a function when each printed coefficient is off by that much.
+    """
+    points = np.asarray(points, dtype=float)
+    funcs = function_list(spec)
+    out = np.zeros((len(funcs), len(points)))
+    for ifn, fn in enumerate(funcs):
+        delta = np.abs(points - fn["center"])
+        radial = np.exp(-np.outer(fn["exponents"], (delta**2).sum(axis=1)))
+        weights = np.abs(fn["weights"])
+        if coeff_override is not None:
+            shell = spec["shells"][fn["ishell"]]
+            dk = np.abs(np.asarray(shell["coeffs"], dtype=float)[:, fn["icon"]])
+            norms = np.divide(weights, dk, out=np.zeros_like(weights), where=dk > 0)
+            if (dk == 0).any():
+                if fn["kind"] == "c":
+                    mono = next(iter(fn["poly"]))
+                    norms = np.array([cart_norm(a, *mono) for a in fn["exponents"]])
+                else:
+                    norms = np.array([pure_norm(a, fn["ell"]) for a in fn["exponents"]])
+            weights = norms * coeff_override
+        polyval = np.zeros(len(points))
+        for (nx, ny, nz), coef in fn["poly"].items():
+            polyval += abs(coef) * delta[:, 0] ** nx * delta[:, 1] ** ny * delta[:, 2] ** nz
+        out[ifn] = (weights @ radial) * polyval
+    return out
+
+
 def eval_orbitals(spec, coeffs, points):
     """Orbital values: (norb, npoint) for coefficient matrix (nbasis, norb)."""
     return np.asarray(coeffs).T @ eval_basis(spec, points)
